@@ -396,3 +396,36 @@ fn c18_enc_enum_unit() {
     let s = ManuallyDrop::new(OwnedDataModelType::Enum { name: n0.owned(), variants: unsafe { bxs(&mut vars[..]) } });
     encode_total(&s);
 }
+
+#[kani::proof]
+#[kani::unwind(12)]
+//@ tier=thorough class=best cap=2400 bounds="schema Enum{A, B(U8)} x JSON family: a bare string naming the newtype variant must not be accepted and then undecodable"
+fn c18_enc_enum_mixed() {
+    let mut n0 = Name::fixed("E");
+    let mut na = Name::fixed("A");
+    let mut nb = Name::fixed("B");
+    let mut i0 = ManuallyDrop::new(OwnedDataModelType::U8);
+    let mut vars = ManuallyDrop::new([
+        OwnedVariant { name: na.owned(), data: OwnedData::Unit },
+        OwnedVariant { name: nb.owned(), data: OwnedData::Newtype(unsafe { bx(&mut *i0) }) },
+    ]);
+    let s = ManuallyDrop::new(OwnedDataModelType::Enum { name: n0.owned(), variants: unsafe { bxs(&mut vars[..]) } });
+    encode_total(&s);
+}
+
+#[kani::proof]
+#[kani::unwind(13)]
+//@ tier=thorough class=best cap=2400 bounds="schema Seq(U8) x every byte string 0..=11 whose length prefix may claim up to usize::MAX elements: no capacity-overflow panic, loop bounded by the bytes present"
+fn c18_dec_seq_u8_huge_claim() {
+    let mut i0 = ManuallyDrop::new(OwnedDataModelType::U8);
+    let s = ManuallyDrop::new(OwnedDataModelType::Seq(unsafe { bx(&mut *i0) }));
+    let a: [u8; 11] = kani::any();
+    let n: usize = kani::any();
+    kani::assume(n <= 11);
+    // a long length prefix followed by at most one element keeps the Vec<Value> small
+    kani::assume(a[0] >= 0x80 && a[1] >= 0x80 && a[2] >= 0x80 && a[3] >= 0x80 && a[4] >= 0x80 && a[5] >= 0x80 && a[6] >= 0x80 && a[7] >= 0x80);
+    let r = from_slice_dyn(&s, &a[..n]);
+    assert!(r.is_err(), "a sequence claiming > 2^56 one-byte elements cannot be backed by 11 bytes");
+    kani::cover!(n == 11, "full length reachable");
+    core::mem::forget(r);
+}
